@@ -123,12 +123,13 @@ type SpecDB struct {
 	GhostSort map[string]string // ghost (global or field) name -> sort
 	ModGroups map[string]*ModGroup
 	TypeInvs  map[string]*TypeInv
+	MapInvs   map[string]*TypeInv // map type key -> invariant of every stored value
 	Files     map[string]string // path -> sha256
 	PropFuncs map[string][]string
 }
 
 func newSpecDB() *SpecDB {
-	return &SpecDB{Contracts: map[string]*Contract{}, Funcs: map[string]*SpecFunc{}, GhostSort: map[string]string{}, ModGroups: map[string]*ModGroup{}, TypeInvs: map[string]*TypeInv{}, Files: map[string]string{}, PropFuncs: map[string][]string{}}
+	return &SpecDB{Contracts: map[string]*Contract{}, Funcs: map[string]*SpecFunc{}, GhostSort: map[string]string{}, ModGroups: map[string]*ModGroup{}, TypeInvs: map[string]*TypeInv{}, MapInvs: map[string]*TypeInv{}, Files: map[string]string{}, PropFuncs: map[string][]string{}}
 }
 
 // ---- lexer ----
@@ -618,6 +619,17 @@ func (db *SpecDB) loadFile(path, pkgShort string, slashAt bool) error {
 				sf.Sort = SBool
 			}
 			db.Funcs[sf.Name] = sf
+			cur = nil
+		case "mapinv":
+			// mapinv <mapTypeKey> <var> : expr   (every value stored in a map of this type satisfies expr)
+			tk, r2 := splitWord(rest)
+			vn, r3 := splitWord(r2)
+			r3 = strings.TrimSpace(strings.TrimPrefix(strings.TrimSpace(r3), ":"))
+			e, err := parseExpr(r3, pos)
+			if err != nil {
+				return err
+			}
+			db.MapInvs[tk] = &TypeInv{Var: strings.TrimSuffix(vn, ":"), Expr: e}
 			cur = nil
 		case "typeinv":
 			// typeinv <typeKey> <var> : expr
